@@ -242,17 +242,16 @@ def check_api_hygiene(chk):
     chk.note_unit(w)
     for nm in names[:4]:
         fn = w.fn(nm)
-        try:
-            ps = [p for p in paths.enumerate_paths(fn, w, loop_bound=2, max_paths=5000) if not paths.is_assert_fail_path(p)]
-        except AnalysisError as e:
-            chk.unknown("B6.single-evaluation", nm[7:], str(e)[:150])
-            continue
-        worst = max((len([e for e in p.events if e.kind == "call" and not isinstance(e.callee, str)]) for p in ps), default=0)
-        least = min((len([e for e in p.events if e.kind == "call" and not isinstance(e.callee, str)]) for p in ps), default=0)
-        chk.ob("B6.single-evaluation", "%s(next())" % nm[7:], worst == 1 and least == 1,
-               "the argument expression is evaluated exactly once on every path" if worst == 1 and least == 1 else
-               "the argument expression is evaluated %d time(s) on some path: with an argument that has a side effect (a FIFO pop, a "
-               "register read) the value examined is not the value counted" % (worst if worst != 1 else least), fn.loc, nm)
+        # IR level: exactly one call through the function-pointer argument, outside every cycle, in a block that dominates every
+        # return (so it is executed exactly once whatever path is taken)
+        ind = [i for i in fn.real_insts() if i.op == "call" and i.callee is None]
+        rets = fn.rets()
+        once = len(ind) == 1 and not fn.in_cycle(ind[0]) and all(fn.block_dominates(ind[0].block, r.block) for r in rets)
+        chk.ob("B6.single-evaluation", "%s(next())" % nm[7:], once,
+               "the argument expression is evaluated exactly once on every path" if once else
+               "the argument expression is not evaluated exactly once (%d call site(s)%s): with an argument that has a side effect (a FIFO "
+               "pop, a register read) the value examined is not the value counted" % (len(ind), ", one inside a loop" if any(fn.in_cycle(i) for i in ind) else ""),
+               fn.loc, nm)
     decide(chk, "B6.argument-conversion", "bitcnt(uint64_t)", w, "w_wide_bitcnt", 64, lambda bv, x, n: spec_popcount(bv, x[:32], n), what="bitcnt of a 64-bit argument")
     decide(chk, "B6.argument-conversion", "clz(uint64_t)", w, "w_wide_clz", 64, lambda bv, x, n: spec_clz(bv, x[:32], n), what="clz of a 64-bit argument")
     decide(chk, "B6.argument-conversion", "ctz(uint64_t)", w, "w_wide_ctz", 64, lambda bv, x, n: spec_ctz(bv, x[:32], n), what="ctz of a 64-bit argument")
